@@ -53,12 +53,25 @@ func b2i(b bool) int64 {
 
 type msigInfo struct {
 	Addr    types.Address
+	OwnerAddrs []types.Address
 	Owners  []Acct
 	Weights []uint32
 	Thr     uint32
 }
 
+func changed(a, b map[string]*big.Int) []string {
+	var out []string
+	for k, v := range b {
+		if a[k] == nil || a[k].Cmp(v) != 0 {
+			out = append(out, k)
+		}
+	}
+	return out
+}
+
 type ltx struct {
+	msig    *msigInfo
+	signers []Acct
 	raw    []byte
 	enc    []*big.Int // model encoding (without the leading 10, mode)
 	sender types.Address
@@ -82,6 +95,7 @@ type checkInfo struct {
 	chainOK bool
 	lock    int // 0 undecodable, 1 wrong, 2 ok
 	redeemer types.Address
+	paidAt   uint64 // block in which the check paid out (0 = not yet)
 }
 
 type pastTx struct {
@@ -102,6 +116,9 @@ type lgen struct {
 	past   []pastTx
 	nonces map[types.Address]uint64
 	owner  map[types.CoinSymbol]Acct
+	poor   []Acct // accounts without any funds (typical check redeemers); some receive dust later
+	lastFreshRedeem bool
+	paid   map[string]bool
 	symOf  map[types.CoinID]types.CoinSymbol
 }
 
@@ -208,6 +225,19 @@ func (g *lgen) gen(h uint64) *ltx {
 	if len(g.tokens) < 2 && r.Intn(3) == 0 {
 		kk = 4
 	}
+	// right after a fresh redemption in this block: replay a check that was paid out (and committed)
+	// in an EARLIER block — the used set then has an in-memory part and a committed part
+	var forced *ltx
+	if g.lastFreshRedeem && r.Intn(2) == 0 {
+		for _, old := range g.checks {
+			if old.check != nil && old.check.paidAt != 0 && old.check.paidAt < h && (forced == nil || r.Intn(2) == 0) {
+				forced = old
+			}
+		}
+		if forced != nil {
+			kk = 10
+		}
+	}
 	switch k := kk; {
 	case k <= 2:
 		kind = "send"
@@ -220,6 +250,13 @@ func (g *lgen) gen(h uint64) *ltx {
 			to = a.Addr
 		}
 		v := g.part(a.Addr, c)
+		if r.Intn(12) == 0 {
+			to = g.poor[r.Intn(len(g.poor))].Addr // dust for a poor account
+			v = Z(int64(1 + r.Intn(9)))
+			if r.Intn(3) == 0 {
+				v = new(big.Int).Add(bi(g.n.Genesis.Commission.FailedTx), Z(int64(r.Intn(5)-2)))
+			}
+		}
 		typ, data = transaction.TypeSend, transaction.SendData{Coin: c, To: to, Value: v}
 		enc = L(Z(1), Z(int64(c)), addrZ20(to), v)
 	case k == 3:
@@ -318,11 +355,17 @@ func (g *lgen) gen(h uint64) *ltx {
 		enc = L(Z(7), Z(int64(due)), Z(int64(c)), v)
 	case k == 10 || k == 11:
 		kind = "redeem"
-		if len(g.checks) > 0 && r.Intn(4) == 0 {
+		if r.Intn(3) == 0 {
+			a = g.poor[r.Intn(len(g.poor))] // the redeemer typically owns nothing
+		}
+		if len(g.checks) > 0 && (forced != nil || r.Intn(4) == 0) {
 			// replay of an earlier check by the same redeemer: new transaction, same check
 			old := g.checks[r.Intn(len(g.checks))]
+			if forced != nil {
+				old = forced
+			}
 			od := old.data.(transaction.RedeemCheckData)
-			for _, u := range g.users {
+			for _, u := range append(append([]Acct{}, g.users...), g.poor...) {
 				if u.Addr == old.check.redeemer {
 					a = u
 				}
@@ -345,6 +388,9 @@ func (g *lgen) gen(h uint64) *ltx {
 				gp = 1
 			}
 			v := new(big.Int).Div(g.part(issuer.Addr, c), Z(int64(1+r.Intn(5))))
+			if r.Intn(6) == 0 {
+				v = new(big.Int).Add(g.bal(issuer.Addr, c), Z(int64(1+r.Intn(1000)))) // more than the issuer holds: rejected in Run
+			}
 			due := uint64(int64(h) - 2 + int64(r.Intn(8)))
 			pass := mkAcct(7777 + r.Intn(2)).Key
 			chain := types.CurrentChainID
@@ -529,6 +575,16 @@ func (g *lgen) gen(h uint64) *ltx {
 		sender = msig.Addr
 		signers = []Acct{a}
 	}
+	if r.Intn(20) == 0 && kind != "redeem" {
+		// a multi-signature naming an ORDINARY (active) account, with no / foreign signatures
+		victim := g.acct()
+		msig = &msigInfo{Addr: victim.Addr}
+		sender = victim.Addr
+		signers = nil
+		if r.Intn(3) == 0 {
+			signers = []Acct{a}
+		}
+	}
 	// nonce
 	nonce := g.nonces[sender]
 	if nonce == 0 {
@@ -581,13 +637,13 @@ func (g *lgen) gen(h uint64) *ltx {
 	}
 	head := L(Z(int64(nonce)), Z(b2i(chainID == types.CurrentChainID)), Z(int64(gp)), Z(int64(gas)), Z(int64(len(payload))), Z(int64(len(service))))
 	full := append(append(head, sigEnc...), enc...)
-	t := &ltx{raw: raw, enc: full, sender: sender, gas: gas, kind: kind, payer: sender, check: ci, data: data, gp: gp, plen: len(payload) + len(service)}
+	t := &ltx{msig: msig, signers: signers, raw: raw, enc: full, sender: sender, gas: gas, kind: kind, payer: sender, check: ci, data: data, gp: gp, plen: len(payload) + len(service)}
 	if kind == "redeem" && ci != nil {
 		t.payer = ci.issuer
 	}
 	if kind == "multisig" {
 		d := data.(transaction.CreateMultisigData)
-		mi := msigInfo{Addr: accounts.CreateMultisigAddress(sender, nonce), Weights: d.Weights, Thr: d.Threshold}
+		mi := msigInfo{Addr: accounts.CreateMultisigAddress(sender, nonce), Weights: d.Weights, Thr: d.Threshold, OwnerAddrs: d.Addresses}
 		for _, x := range d.Addresses {
 			for _, u := range g.users {
 				if u.Addr == x {
@@ -638,7 +694,11 @@ func runLedger(pid string, seed uint64, n int, out, stats string) {
 		}
 		nd := newNode(spec)
 		where := fmt.Sprintf("vharness %s -seed %d -n %d (history %d, seed %d)", strings.ToLower(pid), seed, n, i, s)
-		g := &lgen{n: nd, r: r, users: nd.Accts[:nUsers], nonces: map[types.Address]uint64{}, owner: map[types.CoinSymbol]Acct{}, symOf: map[types.CoinID]types.CoinSymbol{}}
+		var poor []Acct
+		for pi := 0; pi < 3; pi++ {
+			poor = append(poor, mkAcct(40000+int(s%1000)*10+pi))
+		}
+		g := &lgen{n: nd, r: r, poor: poor, paid: map[string]bool{}, users: nd.Accts[:nUsers], nonces: map[types.Address]uint64{}, owner: map[types.CoinSymbol]Acct{}, symOf: map[types.CoinID]types.CoinSymbol{}}
 		c.Begin(7)
 		com := nd.Genesis.Commission
 		c.Op(append(L(Z(0), symZ(types.GetBaseCoin()), Z(0), Z(InitialHeight)), priceVector(com)...), L(Z(0)))
@@ -647,6 +707,9 @@ func runLedger(pid string, seed uint64, n int, out, stats string) {
 		}
 		tracked := []types.Address{{}}
 		for _, u := range g.users {
+			tracked = append(tracked, u.Addr)
+		}
+		for _, u := range g.poor {
 			tracked = append(tracked, u.Addr)
 		}
 		nontriv := false
@@ -742,6 +805,13 @@ func runLedger(pid string, seed uint64, n int, out, stats string) {
 							mon = append(mon, MonitorFailure{What: fmt.Sprintf("C03: rejected %s transaction (code %d) changed balance %s by %s (payer %s, failure fee %s)", cur.kind, tr.Code, k, d, payerKey, fee), Key: "c03-frame", Replay: where})
 						} else {
 							failedCharged++
+							want := new(big.Int).Set(fee)
+							if preBal[k].Cmp(want) < 0 {
+								want = new(big.Int).Set(preBal[k])
+							}
+							if new(big.Int).Neg(d).Cmp(want) != 0 {
+								mon = append(mon, MonitorFailure{What: fmt.Sprintf("C03: rejected %s transaction (code %d) charged %s to %s; the failure fee capped at the payer's balance is %s (fee %s, balance %s)", cur.kind, tr.Code, new(big.Int).Neg(d), k, want, fee, preBal[k]), Key: "c03-fee-cap", Replay: where})
+							}
 						}
 					}
 				}
@@ -751,6 +821,38 @@ func runLedger(pid string, seed uint64, n int, out, stats string) {
 						if !strings.HasPrefix(k, cur.sender.String()+"/") && !strings.HasPrefix(k, cur.payer.String()+"/") {
 							mon = append(mon, MonitorFailure{What: fmt.Sprintf("C05: %s transaction from %s decreased balance %s", cur.kind, cur.sender.String(), k), Key: "c05-unauthorized-debit", Replay: where})
 						}
+					}
+				}
+				// C05: a transaction signed "as multisig" that is accepted or charged must name a real multisig account
+				// whose distinct listed owners among the signers reach the threshold
+				if cur.msig != nil && (tr.Code == 0 || len(changed(preBal, postBal)) > 0) {
+					var mi *msigInfo
+					for i := range g.msigs {
+						if g.msigs[i].Addr == cur.msig.Addr {
+							mi = &g.msigs[i]
+						}
+					}
+					ok := mi != nil
+					if ok {
+						seen := map[types.Address]bool{}
+						total := uint32(0)
+						for _, sg := range cur.signers {
+							if seen[sg.Addr] {
+								ok = false
+							}
+							seen[sg.Addr] = true
+							for i, o := range mi.OwnerAddrs {
+								if o == sg.Addr && i < len(mi.Weights) {
+									total += mi.Weights[i]
+								}
+							}
+						}
+						if total < mi.Thr {
+							ok = false
+						}
+					}
+					if !ok {
+						mon = append(mon, MonitorFailure{What: fmt.Sprintf("C05: %s transaction with a multi-signature naming %s (code %d) took effect although the multisig gate cannot pass (account is a multisig: %v, signers %d)", cur.kind, cur.msig.Addr.String(), tr.Code, mi != nil, len(cur.signers)), Key: "c05-multisig-gate", Replay: where})
 					}
 				}
 				// C27: accepted, base gas coin: the reward pool grows by gasPrice*(type price + bytes*byte price), less the ticker burn
@@ -766,12 +868,12 @@ func runLedger(pid string, seed uint64, n int, out, stats string) {
 				}
 				// C21: a check pays at most once
 				if cur.kind == "redeem" && tr.Code == 0 && cur.check != nil {
-					for _, old := range g.checks {
-						if old.check != nil && old.check.id == cur.check.id && old.check.lock == 99 {
-							mon = append(mon, MonitorFailure{What: "C21: check " + cur.check.id + " redeemed twice", Key: "c21-double-redeem", Replay: where})
-						}
+					if g.paid[cur.check.id] {
+						mon = append(mon, MonitorFailure{What: "C21: check " + cur.check.id + " paid out a second time (value " + cur.check.value.String() + ")", Key: "c21-double-redeem", Replay: where})
 					}
+					g.paid[cur.check.id] = true
 					cur.check.lock = 99 // marks "paid"
+					cur.check.paidAt = h
 				}
 				if cur.kind == "redeem" && cur.check != nil && cur.check.id != "" {
 					g.checks = append(g.checks, cur)
@@ -801,6 +903,7 @@ func runLedger(pid string, seed uint64, n int, out, stats string) {
 						g.past[replayOf].accepted = true
 					}
 				}
+				g.lastFreshRedeem = cur.kind == "redeem" && tr.Code == 0 && replayOf < 0
 				// bookkeeping of the generator
 				if tr.Code == 0 {
 					g.nonces[cur.sender] = postNonce + 1
@@ -926,6 +1029,7 @@ func c27Price(com types.Commission, t *ltx) *big.Int {
 func c22Monitor(nd *Node, mon *[]MonitorFailure, where string) {
 	e := nd.Export()
 	active := map[string]uint64{}
+	versions := map[string]uint64{}
 	seen := map[uint64]bool{}
 	maxID := uint64(0)
 	for _, cn := range e.Coins {
@@ -942,6 +1046,11 @@ func c22Monitor(nd *Node, mon *[]MonitorFailure, where string) {
 			}
 			active[cn.Symbol.String()] = cn.ID
 		}
+		sv := fmt.Sprintf("%s-%d", cn.Symbol.String(), cn.Version)
+		if other, ok := versions[sv]; ok {
+			*mon = append(*mon, MonitorFailure{What: fmt.Sprintf("C22: coins %d and %d both carry ticker %s version %d: the recreated coin was not kept under a new version number", other, cn.ID, cn.Symbol.String(), cn.Version), Key: "c22-version-dup", Replay: where})
+		}
+		versions[sv] = cn.ID
 		if bi(cn.Volume).Cmp(bi(cn.MaxSupply)) > 0 {
 			*mon = append(*mon, MonitorFailure{What: fmt.Sprintf("C22: coin %d volume %s above max supply %s", cn.ID, cn.Volume, cn.MaxSupply), Key: "c22-max-supply", Replay: where})
 		}
